@@ -332,6 +332,56 @@ def run_slow_reader(case):
     return None
 
 
+def run_wrapper_final(case):
+    """the c_find wrapper against a provider that ends the query with a non-success final status (a real AE on loopback TCP
+    whose find service is the application's own): the matches, then the final status, must be yielded - not raised"""
+    import threading
+    import pydicom
+    import pynetdicom2
+    from pynetdicom2 import applicationentity as aem, sopclass as sc, dimsemessages as dm, dsutils
+    n, final = case['n'], case['final']
+
+    def find_scp(asce, ctx, msg):
+        for j in range(n):
+            rsp = dm.CFindRSPMessage()
+            rsp.message_id_being_responded_to = msg.message_id
+            rsp.sop_class_uid = msg.sop_class_uid
+            rsp.status = 0xFF00
+            d = pydicom.Dataset(); d.PatientID = 'F%d' % j
+            rsp.data_set = dsutils.encode(d, ctx.supported_ts.is_implicit_VR, ctx.supported_ts.is_little_endian)
+            asce.send(rsp, ctx.id)
+        rsp = dm.CFindRSPMessage()
+        rsp.message_id_being_responded_to = msg.message_id
+        rsp.sop_class_uid = msg.sop_class_uid
+        rsp.status = final
+        asce.send(rsp, ctx.id)
+    find_scp.sop_classes = list(sc.qr_find_scp.sop_classes)
+    srv = aem.AE('SRV', 0)
+    srv.timeout = 10
+    srv.add_scp(find_scp)
+    box = {}
+
+    def body():
+        try:
+            q = pydicom.Dataset(); q.PatientID = '*'; q.QueryRetrieveLevel = 'PATIENT'
+            box['got'] = [(None if d is None else str(d.PatientID), int(st))
+                          for d, st in pynetdicom2.c_find({'aet': 'SRV', 'address': '127.0.0.1', 'port': srv.server_address[1]}, 'WRAPPER', q)]
+        except BaseException as e:  # pylint: disable=broad-except
+            box['exc'] = e
+    with srv:
+        th = threading.Thread(target=body, daemon=True)
+        th.start()
+        th.join(30)
+        if th.is_alive():
+            return 'c_find() did not finish within 30 s (final status %#06x)' % final
+    want = [('F%d' % j, 0xFF00) for j in range(n)] + [(None, final)]
+    if 'exc' in box:
+        return 'c_find() against a provider that ends the query with status %#06x raised %r; it should have yielded %r' % (final, box['exc'], want[-2:])
+    if box.get('got') != want:
+        return 'c_find() yielded %r; the provider sent %d matches and the final status %#06x' % (box.get('got'), n, final)
+    return None
+
+
 def run_default_entity(case):
     """the provider on an entity that does not override on_receive_find: no matches, exactly one final success"""
     import pydicom
@@ -354,6 +404,8 @@ def run_default_entity(case):
 
 
 def replay(case):
+    if case.get('wrapper_final'):
+        return run_wrapper_final(case)
     if case.get('slow_reader'):
         return run_slow_reader(case)
     if case.get('default_entity'):
@@ -422,6 +474,17 @@ def run(chk):
                 chk.count('wrapper:not-reproduced')
             else:
                 chk.violation('C16:wrapper:' + r[:20], r, wc)
+    # the wrapper against finals other than success
+    for n_, final in ((2, 0xC001), (0, 0xA700), (1, 0xFE00), (3, 0xB000)):
+        wf = {'wrapper_final': True, 'n': n_, 'final': final}
+        try:
+            r = run_wrapper_final(wf)
+        except Exception as e:  # pylint: disable=broad-except
+            common.raise_for(common.describe_exc(e))
+        chk.case(repr(wf), True, {'c_find wrapper, final status': '%04x' % final})
+        chk.count('wrapper-final')
+        if r and not (common.timing_verdict(r) and (run_wrapper_final(wf) is None or run_wrapper_final(wf) is None)):
+            chk.violation('C16:wrapper-final', r, wf)
     # a peer that reads slowly (real TCP, more data than the buffers hold)
     sl = {'slow_reader': True, 'n': 60, 'size': 200000, 'stall': 5, 'entity_timeout': 2, 'pace': 0.1}
     try:
